@@ -290,7 +290,7 @@ namespace simpl
     try
     {
       // Half of the runs (chosen by the case's own data) use a builder that has already built a solver for the same
-      // species listed in the opposite order plus one that takes part in no reaction, then is given the system alone again;
+      // species listed in the opposite order (in half of the cases plus one that takes part in no reaction), then is given the system alone again;
       // the State used is one of that earlier solver onto which the new solver's State is copy-assigned.  Builders
       // and States are values: neither history may show.
       Builder builder(make_params(pb));
@@ -305,7 +305,7 @@ namespace simpl
         std::reverse(dc.order.begin(), dc.order.end());
         micm::System dsys;
         std::vector<micm::Process> dprocs;
-        make_system(m, dc, dsys, dprocs, true);
+        make_system(m, dc, dsys, dprocs, c.lu % 2 == 0);   // with the unused species in half of them: same or other State shape
         solver_slot.emplace(builder.SetSystem(dsys)
                                 .SetReactions(procs)
                                 .SetNumberOfGridCells((int)pb.ncells)
@@ -323,7 +323,12 @@ namespace simpl
       SolverT& solver = *solver_slot;
       auto fresh_state = solver.GetState();
       if (reuse)
+      {
+        // every member comes from the source of the assignment, the tolerances too
+        earlier_state->SetRelativeTolerance(0.125);
+        fresh_state.SetRelativeTolerance(pb.rtol);
         *earlier_state = fresh_state;
+      }
       StateT& state = reuse ? *earlier_state : fresh_state;
       // the name -> index map must be a bijection onto 0..N-1 that agrees with variable_names_
       const std::size_t nvar = ns + m.extra();
@@ -352,7 +357,8 @@ namespace simpl
         else
           o.atol[id] = state.absolute_tolerance_[it->second];
       }
-      state.SetRelativeTolerance(pb.rtol);
+      if (!reuse)
+        state.SetRelativeTolerance(pb.rtol);
       for (std::size_t cidx = 0; cidx < pb.ncells; ++cidx)
       {
         state.conditions_[cidx].temperature_ = pb.T;
@@ -687,6 +693,27 @@ namespace simpl
             same_history = false;
         if (both_converged)
           out.tok(same_history ? "NOTE_HISTORY_SAME" : "NOTE_HISTORY_DIFFERS");
+        // one configuration finishes comfortably (less than a tenth of the steps the other one used) while the other
+        // runs into the step limit or produces NaN: no accept / reject decision within rounding of its threshold explains that
+        for (std::size_t q = 0; q < outs[0].results.size() && q < outs[i].results.size(); ++q)
+        {
+          const auto& ra = outs[0].results[q];
+          const auto& rb = outs[i].results[q];
+          auto easy_vs_stuck = [](const micm::SolverResult& easy, const micm::SolverResult& stuck)
+          {
+            if (easy.state_ != micm::SolverState::Converged)
+              return false;
+            if (stuck.state_ == micm::SolverState::NaNDetected || stuck.state_ == micm::SolverState::InfDetected)
+              return true;   // finite in one configuration, not a number in another
+            return (stuck.state_ == micm::SolverState::ConvergenceExceededMaxSteps || stuck.state_ == micm::SolverState::StepSizeTooSmall) &&
+                   easy.stats_.number_of_steps_ * 10 < stuck.stats_.number_of_steps_;
+          };
+          if (easy_vs_stuck(ra, rb) || easy_vs_stuck(rb, ra))
+          {
+            out.tok("ORACLE_CONFIGS_DISAGREE_ON_STATUS");
+            break;
+          }
+        }
         bool conc = close(outs[0].y, outs[i].y, 1e-7, 1e-12);
         if (!conc && !same_history && outs[0].y.size() == outs[i].y.size() && outs[0].atol.size() == ns)
         {
@@ -824,9 +851,18 @@ namespace simpl
                       .Build();
     auto shared = solver.GetState();
     using StateT = decltype(shared);
+    const std::vector<double> base_atol = shared.absolute_tolerance_;
+    double atol_scale = 1.0;
     auto load = [&](StateT& st, const Problem& pb)
     {
       st.SetRelativeTolerance(pb.rtol);
+      {
+        // the absolute tolerances are inputs too and change from problem to problem
+        std::vector<double> at = base_atol;
+        for (auto& a : at)
+          a *= atol_scale;
+        st.SetAbsoluteTolerances(at);
+      }
       for (std::size_t cidx = 0; cidx < pb.ncells; ++cidx)
       {
         st.conditions_[cidx].temperature_ = pb.T;
@@ -862,6 +898,9 @@ namespace simpl
       Problem pb = pbs[i];
       // consecutive problems differ in air density even when their temperature and pressure coincide
       pb.density_factor.assign(pb.ncells, 1.0 + 0.5 * (double)(i % 2));
+      atol_scale = (i % 2 == 1) ? 0.015625 : 1.0;
+      if (i % 4 == 3)
+        pb.T = -pb.T;   // a meaningless but well-defined input: whatever is computed from it is computed afresh
       auto fresh = solver.GetState();
       load(fresh, pb);
       solver.CalculateRateConstants(fresh);
@@ -870,7 +909,15 @@ namespace simpl
       const auto params_i = make_params(pb);
       for (int s = 0; s < pb.nsteps; ++s)
         rf.push_back(own_params ? solver.Solve(pb.dt, fresh, params_i) : solver.Solve(pb.dt, fresh, make_params(widest)));
-      load(shared, pb);
+      if (i % 3 == 2)
+      {
+        // the problem is prepared in another State and copy-assigned onto the used one
+        auto prepared = solver.GetState();
+        load(prepared, pb);
+        shared = prepared;
+      }
+      else
+        load(shared, pb);
       solver.CalculateRateConstants(shared);
       for (int s = 0; s < pb.nsteps; ++s)
       {
